@@ -3,9 +3,16 @@ CONFIG = {
     "runner": {"module": "Verif.model.TxnAuthCheck", "ident": "check"},
     "harness": [{
         "name": "verify", "pkg": "./data/transactions/verify/", "run": "^TestVerifC28$",
-        "files": ["data/transactions/verify/zz_verif_c28_test.go"],
+        "files": ["data/transactions/verify/zz_verif_c28_test.go", "data/transactions/verify/zz_verif_c28_cache_test.go"],
         "util": [("data/transactions/verify", "verify")],
         "env": {"quick": {"VERIF_C28_N": 1200}, "thorough": {"VERIF_C28_N": 8000}},
+        "timeout": {"quick": 900, "thorough": 3000},
+    }, {
+        "name": "cache", "pkg": "./data/transactions/verify/", "run": "^TestVerifC28Cache$",
+        "files": ["data/transactions/verify/zz_verif_c28_test.go", "data/transactions/verify/zz_verif_c28_cache_test.go"],
+        "util": [("data/transactions/verify", "verify")],
+        "env": {"quick": {"VERIF_C28_CACHE_WORLDS": 6, "VERIF_C28_CACHE_STEPS": 24},
+                "thorough": {"VERIF_C28_CACHE_WORLDS": 30, "VERIF_C28_CACHE_STEPS": 40}},
         "timeout": {"quick": 900, "thorough": 3000},
     }, {
         "name": "eval", "pkg": "./ledger/eval/", "run": "^TestVerifC28Eval$",
@@ -45,7 +52,14 @@ CONFIG = {
             "groups whose first member rekeys the sender and whose second member is authorised by the new / the previous authorizer. The model "
             "must predict both results; spec_ok is evaluated on the COMPOSITION (C28_only_current_authorizer / C28_compose_spec_ok_sound): "
             "accepted by both => exactly one category and authorised by the current authorizer of the sender in the ledger state. "
-            "Non-trivial: vg / vc some signature material present; tg some account rekeyed, AuthAddr or RekeyTo set. distinct = distinct case lines.",
+            "pg / tc / pb (stateful histories, 6 worlds x 24 calls on ONE shared real VerifiedTransactionCache): block validation as in ledger/eval "
+            "(GetUnverifiedTransactionGroups, then verify.PaysetGroups on the rest through a real execution pool, several worksets) on all-good "
+            "paysets, good paysets with one group whose only defect is a bad signature (prep passes, batch fails), random mixes and exact "
+            "REPEATS of earlier paysets; verify.TxnGroup with the cache; txnSigBatchProcessor.ProcessBatch batches. After every call the real "
+            "cache is asked group by group whether it vouches for the group. spec_ok on every call, whatever came before: a group the cache "
+            "vouches for (before or after the call) and every group of an accepted payset has only authorised members (C28_cache_sound / "
+            "C28_validate_sound); the model predicts each result and which groups become remembered. "
+            "Non-trivial: vg / vc / pg / tc / pb some signature material present; tg some account rekeyed, AuthAddr or RekeyTo set. distinct = distinct case lines.",
     "exhaustive": {"quick": False, "thorough": False},
     "explanation": "theorems hold for every signature / PQ verification function, every hash function, all consensus switches, groups of any "
                    "length and any content; the cases test the transcription (model = code) and evaluate the declarative oracle accept_ok_b "
@@ -64,7 +78,10 @@ CONFIG = {
         "stxnCoreChecks, logicSigSanityCheckBatchPrep, logicSigVerify), crypto/multisig.go MultisigBatchPrep / MultisigAddrGenWithSubsigs, "
         "data/transactions/pqsig.go Verify, SignedTxn.Authorizer, transactions.checkTxnGroupID, ledger/eval/eval.go TransactionGroup + "
         "transaction() authorizer check + apply.Rekey as Gallina (coq/model/TxnAuth.v, Commitments.v)",
-        "not modelled: PaysetGroups' worker pool (same txnGroupBatchPrep per group), the verified-transaction cache, AVM evaluation (C31-C35), "
+        "PaysetGroups is modelled per workset (worksetBuilder cut, prep of every group, batch, then AddPayset) with an arbitrary set of worksets "
+        "completed before an abort; the cache is abstracted to the list of remembered groups (capacity, buckets and pinning only forget "
+        "entries; a cache hit = lookup by txid + equal signature fields and AuthAddr is a premise of C28_validate_sound); "
+        "not modelled: goroutine scheduling of the worker pool, AVM evaluation (C31-C35), "
         "WellFormed, alive / duplicate / apply / min-balance checks of the evaluator (oracle bits)",
         "harness error classification by reason code and message text (harness/go/data/transactions/verify/zz_verif_c28_test.go)",
     ],
